@@ -1,0 +1,18 @@
+//go:build verif
+
+// Contracts for the watermill verification harness (/verif, tool "gowp"). Comment-only.
+
+package sync
+
+//@ func WaitGroupTimeout
+//@   ghost label WGT
+//@   requires wg != nil
+//@   nopanic
+//@   ensures spawned("WaitGroupTimeout$1") == old(spawned("WaitGroupTimeout$1")) + 1 [one-waiter]
+//@   modifies nothing
+
+//@ func WaitGroupTimeout$1
+//@   requires wg != nil && wgClosed != nil && !closed(wgClosed)
+//@   ghost neverclosed wgClosed
+//@   nopanic
+//@   assert @send:wgClosed: wg(wg) == 0 [signals-only-after-the-wait-group-was-seen-drained]
